@@ -54,6 +54,21 @@ func (c *Context) Has(key string) bool {
 	return c.Value(key) != nil
 }
 
+// bound reports whether the key is set, even to nil, on this context
+// or on one of its outer contexts.
+func (c *Context) bound(key string) bool {
+	c.moot.Lock()
+	_, ok := c.data[key]
+	c.moot.Unlock()
+	if ok {
+		return true
+	}
+	if c.outer != nil {
+		return c.outer.bound(key)
+	}
+	return false
+}
+
 // Export all the known values in the context.
 // Note this can't reach up into other implemenations
 // of context.Context.
@@ -88,7 +103,7 @@ func NewContextWith(data map[string]interface{}) *Context {
 	verifCtx("new", c, "", nil, nil)
 
 	for k, v := range Helpers.All() {
-		if !c.Has(k) {
+		if !c.bound(k) {
 			c.Set(k, v)
 		}
 	}
@@ -110,7 +125,7 @@ func NewContextWithOuter(data map[string]interface{}, out *Context) *Context {
 	verifCtx("new", c, "", nil, out)
 
 	for k, v := range Helpers.All() {
-		if !c.Has(k) && !c.outer.Has(k) {
+		if !c.bound(k) {
 			c.Set(k, v)
 		}
 	}
